@@ -527,7 +527,20 @@ def r6d(prog, rep):
                             allowed.add(t['otherwise'])   # `if let Some(..)`: the otherwise edge is the None arm
         reach = {entry} | f.reachable_from(entry, avoid={first_add.bb} | allowed)
         k = '%s|every-element-is-accumulated' % name
-        if header in reach and entry != first_add.bb:
+        # ... and nothing is dropped before the loop: the sequence the loop runs over (directly, or collected and sorted first) does not
+        # pass through an adaptor that leaves elements out (a `filter_map` that only unwraps the row's own Option is the allowed skip)
+        DROPS = {'filter', 'skip', 'skip_while', 'take', 'take_while', 'step_by', 'map_while', 'dedup', 'dedup_by', 'dedup_by_key', 'retain', 'truncate',
+                 'drain', 'pop', 'remove', 'swap_remove', 'split_off', 'chunks_exact', 'nth'} | (set() if allowed_field else {'filter_map'})
+        src = mir.provenance(f, nc.args[0], follow_all_call_args=True)
+        roots = {mir.nearest_user_local(f, nc.args[0])} - {None}
+        dropped = [x for x in src.calls if x.short in DROPS and (x.decl.startswith('std::iter::') or 'vec::Vec' in x.callee or 'slice' in x.callee)]
+        dropped += [x for x in f.calls if x.short in DROPS and x.args and mir.nearest_user_local(f, x.args[0]) in roots and
+                    ('vec::Vec' in x.callee or 'slice' in x.callee) and f.reaches(x.bb, header)]
+        if dropped:
+            rep.violation('R6d', k, where=dropped[0].where(), fn=name,
+                          detail='the elements summed by the totals loop pass through %s() first: whatever it leaves out (e.g. a security whose gains '
+                                 'cancel to zero over the years) is missing from the figures, so a total no longer equals the sum of its rows' % dropped[0].short)
+        elif header in reach and entry != first_add.bb:
             rep.violation('R6d', k, where=first_add.where(), fn=name,
                           detail='an iteration of the totals loop can skip the accumulation (a conditional continue/skip): a figure that should be part of the '
                                  'sum is left out, so a total no longer equals the sum of its rows')
